@@ -19,12 +19,21 @@ META = {
               '[1, min(n, available)] per call) are symbolic; compression '
               'disabled / enabled; encryption off / on; packet ids known / '
               'unknown to the reader; read-loop unwinding bound = frame '
-              'length (unwinding assertion); W=64',
+              'length (unwinding assertion); zlen instances: concrete '
+              'payloads of 40, 130, 24+30 bytes (thorough: more) with the '
+              'LENGTH of each compressed body symbolic over every length '
+              'real deflate can produce for it (about 12 .. n+13), reads '
+              'unsegmented; one body of exactly 2^21 bytes (3->4-byte '
+              'VarInt boundary of the data-length field; thorough: also '
+              '2^21-1) followed by a small packet, compressed lengths over '
+              'boundary values only; W=64',
     'outside': 'segmented reads of payloads beyond 130 bytes (the 2->3-byte length prefix at 16384 is covered with unsegmented reads in the thorough tier); '
                'zlib and AES themselves (uninterpreted)',
     'assumptions': [
         'E-zlib: compress is an uninterpreted injective function with '
-        'output length n//2+3; decompress inverts it structurally',
+        'output length n//2+3; decompress inverts it structurally; in the '
+        'zlen instances the output length is an input and the replay '
+        'builds a real zlib stream of exactly that length',
         'E-cipher: AES-CFB8 abstracted to a position-indexed symbolic '
         'keystream per direction (desynchronises on any skipped, duplicated '
         'or reordered byte)',
@@ -247,6 +256,15 @@ def instances(tier, seed):
             witness_every=3,
             note='E-zlib choose_length: every compressed length real '
                  'deflate can produce for the payload'))
+    # the 3->4-byte VarInt boundary of the data-length field (2^21): a body
+    # of exactly 2^21 - 1 and of 2^21 bytes, each followed by a small packet
+    for n in ((2097150, 2097151) if tier == 'thorough' else (2097151,)):
+        out.append(Instance(
+            'framing:%d+3:zlen' % n, 'framing',
+            {'lengths': [n, 3], 'compressed': True, 'whole': True,
+             'zlen': True}, W=64, budget_s=1800, max_decisions=400000,
+            witness_every=4, conc_timeout_s=120,
+            note='E-zlib choose_length over boundary lengths'))
     out.append(Instance('sentinel:framing', 'framing',
                         {'lengths': [3], 'compressed': True,
                          'sentinel': True}, W=64, expect='violation',
